@@ -41,7 +41,7 @@ SIGNED = {f: f[0] in "iI" for f in FORMATS}
 REPBITS = {"i8": 8, "i16": 16, "I24": 32, "i32": 32, "I48": 64, "i64": 64, "u8": 8, "u16": 16, "U24": 32, "u32": 32, "U48": 64, "u64": 64}
 FW = {32: dict(prec=24, mw=23, ew=8, emax=128, bias=127, name="f32"), 64: dict(prec=53, mw=52, ew=11, emax=1024, bias=1023, name="f64")}
 TEST_CONV = os.environ.get("DASP_CONV_RS")  # TESTING ONLY: pretend /repo's conv.rs were this file
-N_THEOREMS = 25
+N_THEOREMS = 28
 
 
 def fmin(f):
@@ -642,7 +642,7 @@ def model_search(S, rng):
     exprs, keys = [], []
     for f in FORMATS:
         for fw in (32, 64):
-            vals = structured_for(("i2f", f, fw), rng)[:120]
+            vals = structured_for(("i2f", f, fw), rng)
             exprs.append(f"spec_bad_i2f 0 {CODE[f]} {fw} [" + "; ".join(zt(v) for v in vals) + "]")
             keys.append(("i2f", f, fw))
             bits = float_structured(fw, f)[:120]
@@ -653,11 +653,11 @@ def model_search(S, rng):
     from concurrent.futures import ThreadPoolExecutor
 
     def ev(k):
-        part = exprs[k:k + 12]
+        part = exprs[k:k + 3]
         rc, out = F.coq_eval(f"c02_search{k}", SHEADER, "[" + ";\n".join(part) + "]")
         return k, rc, out
     with ThreadPoolExecutor(max_workers=F.NCPU) as ex:
-        res = list(ex.map(ev, range(0, len(exprs), 12)))
+        res = list(ex.map(ev, range(0, len(exprs), 3)))
     for k, rc, out in res:
         if rc != 0:
             return None, out[-800:]
